@@ -39,6 +39,7 @@ fn main() {
     let code = match sub {
         "classes" => chars::classes(rest),
         "names" => chars::names(rest),
+        "charroles" => chars::charroles(rest),
         "replay-dom" => domreplay::replay(rest),
         "dom-record" => domrec::record(rest),
         "dom-rerun" => domrec::rerun(rest),
